@@ -4,21 +4,18 @@ import NdnModel.Calendar
   The time side of security_v2: `derive_cert` (an aware start_time is converted with `astimezone(UTC)` first, then
   + timedelta(seconds=expire_sec)), `sign_req` (datetime.now(UTC), + timedelta(days=10)), `self_sign`
   (1970-01-01T00:00:00 naive, datetime.now(UTC) with year + 20) and the UTC conversion +
-  `strftime('%Y%m%dT%H%M%S')` in `new_cert`, over the calendar model.
+  `_fmt_time` (year zero-padded to four digits + `strftime('%m%dT%H%M%S')`) in `new_cert`, over the calendar model.
   Instants are (ordinal, second of day, microsecond); an aware datetime carries its `fold` and its tzinfo, which
   is any function from wall-clock readings to UTC offsets in seconds (`Calendar.Zone`: fixed or varying).
 -/
 namespace Ndn.Cert
 open Ndn Ndn.Codec Ndn.Packet Ndn.Calendar
 
-/-- `strftime('%Y%m%dT%H%M%S')` of an instant.  glibc pads `%Y` to four digits only from the year 1000 on:
-    below that (ordinals < 364878) this is not what CPython 3.12 prints. -/
+/-- `_fmt_time` of an instant: `'%04d' % year + strftime('%m%dT%H%M%S')`, the 15-octet `YYYYMMDDThhmmss` for every
+    year 0001..9999 -/
 def fmtInstant (t : Instant) : Bytes :=
   let f := fields t
   formatTime f.1 f.2.1 f.2.2.1 f.2.2.2.1 f.2.2.2.2.1 f.2.2.2.2.2
-
-/-- first ordinal of the year 1000 (`date(1000, 1, 1).toordinal()`) -/
-def minFmtOrdinal : Nat := 364878
 
 /-- the time inputs of the three issuing functions -/
 inductive Issue where
